@@ -167,6 +167,12 @@ def functor(E, k, w, dimsets, cap, allow=None):
             raise Abort()
         scan = scan2
     ref = I.diagram(d)
+    # the functor applied to each box on its own has the image types
+    F0 = make_functor(E, dims, boxes, arrays, 'dict-int', 'callable')
+    for b in d.boxes:
+        Fb = F0(b)
+        E.check(Fb.dom == Dim(*I.ty(b.dom)) and Fb.cod == Dim(*I.ty(b.cod)),
+                "C09:functor:box-image-dom-cod", info=repr(b))
     # two of the six (object map, box map) styles per shape, rotating
     combos = [(o, a) for o in ('dict-int', 'callable-dim', 'dict-dim')
               for a in ('callable', 'dict')]
